@@ -5,7 +5,8 @@ docstrings of ``seek`` / ``set_*`` / ``close`` / ``loop`` and the ``[#ri-nf]`` f
   for ever); ``loop`` starts at ``loops``, decreases by one upon rendering the first
   frame of every loop after the first and ends at zero after exhaustion;
 * "next frame" = first frame / the frame after the last rendered one / the frame set by
-  the latest seek -- it equals ``frame_count`` at a loop boundary;
+  the latest seek -- after the last frame of a loop that is the first frame of the next
+  loop (only after the last frame of the *last* loop is there none: ``frame_count``);
 * seek: START 0 <= off < n; CURRENT -next <= off < n - next; END -n < off <= 0; anything
   else is a ValueError that changes nothing; a seek does not consume a loop;
 * INDEFINITE: loops = 1, no caching; START needs off >= 0, END needs off <= 0, CURRENT
@@ -76,7 +77,10 @@ class IterModel:
                 return ("err", "ValueError")
             self.pending = (off, wh)
             return ("ok",)
-        f = off if wh == START else (self.next + off if wh == CURRENT else self.n + off - 1)
+        nxt = self.next
+        if nxt >= self.n and self.loop != 1:
+            nxt = 0  # between two loops: the frame to be rendered next is the first one
+        f = off if wh == START else (nxt + off if wh == CURRENT else self.n + off - 1)
         if not 0 <= f < self.n:
             return ("err", "ValueError")
         self.next = f
